@@ -309,7 +309,10 @@ class CliHarness:
             w.spawn(name, lambda: w.client.finish_connection(login=w.login))
             return
         must_accept = not w.inflight and not w.between and not w.alive
-        must_refuse = bool(w.inflight) or w.alive
+        # an attempt whose socket is already gone (the device hung up, the connection is closed) but whose call has not yet been resumed
+        # to return its error is over in substance: until it returns, a new attempt may be accepted or refused
+        doomed = bool(w.inflight) and w.live_sock() is None and not w.net.connecting() and not w.alive
+        must_refuse = (bool(w.inflight) and not doomed) or w.alive
         w.inflight[name] = kind
         prev_owner = w.session_call
         w.session_call = name  # provisional: set before the call so that a callback firing inside it is attributed correctly
